@@ -273,7 +273,7 @@ class RunModel(Analysis):
         if kind in ('run', 'bare'):
             live = st.a('live', frozenset()) | frozenset([task])
             st = st.set(live=live, phase='Live' if phase in ('NoTasks', 'Live') else phase,
-                        nstart=min(2, st.a('nstart', 0) + 1))
+                        nstart=1)
         elif kind == 'shut':
             st = st.set(shut_live=st.a('shut_live', frozenset()) | frozenset([task]), nshut=1)
         return (st.note(ip.where(node, fr), "task created for %s" % T.show(job, 3)), task)
@@ -428,10 +428,7 @@ class RunModel(Analysis):
             self.ev(ip, 'LATEWAIT', node, st, fr, arg=arg, cause=c)
             y = y.set(live=frozenset([wp]), cause=c, susp=True)
         else:
-            ao = dict(st.a('argof', ()))
-            ao[site] = arg
-            y = y.set(argof=tuple(sorted(ao.items(), key=repr)))
-            y = y.set(live=frozenset([wp]), susp=False, nwait=min(2, st.a('nwait', 0) + 1),
+            y = y.set(live=frozenset([wp]), susp=False, nwait=1,
                       cancelled=frozenset(), cur_wait=site, incs=0, count_ok=None, cause=None)
         y = y.note(ip.where(node, fr), "asyncio.wait(FIRST_COMPLETED) returns (done, pending)")
         out = self.cancel_edge(ip, node, st, fr, "CancelledError delivered at the main wait")
@@ -565,6 +562,13 @@ class RunModel(Analysis):
 
     def on_suspend(self, ip, node, term, st, fr):
         return st.set(susp=True)
+
+    def on_back_edge(self, ip, st):
+        # per-iteration bookkeeping does not survive the iteration
+        a = st.auto
+        if a.get('incs') or a.get('count_ok') is not None or a.get('cancelled'):
+            return st.set(incs=0, count_ok=None, cancelled=frozenset())
+        return st
 
     def keep_fact(self, ip, func, term):
         if term[0] in ('wdone', 'wpend', 'adone', 'apend'):
